@@ -4,7 +4,25 @@ set -e
 cd "$(dirname "$0")"
 export CARGO_NET_OFFLINE=true
 python3-vt -c "import z3; print('z3', z3.get_version_string())"
-# warm the MIR dump (nightly build of the dependency tree) and the native replay driver
-python3-vt mirsym/mirdump.py vaporetto train,kytea > /dev/null
+# warm the MIR dumps (nightly build of the dependency tree) of every program the harnesses load, and the native drivers
+python3-vt - <<'PY'
+import sys, importlib, glob, os
+sys.path.insert(0, 'mirsym'); sys.path.insert(0, 'harness')
+import mirdump
+seen = set()
+for p in sorted(glob.glob('harness/C*_harness.py')):
+    mod = importlib.import_module(os.path.basename(p)[:-3])
+    for name, kw in getattr(mod, 'PROGRAMS', {}).items():
+        key = repr(sorted(kw.items(), key=lambda kv: kv[0]))
+        if key in seen:
+            continue
+        seen.add(key)
+        try:
+            mirdump.load_program(**kw)
+        except Exception as ex:       # a check reports this itself (exit 2); setup keeps going
+            print('warm-up of %s/%s failed: %s' % (mod.ID, name, ex))
+print('programs warmed:', len(seen))
+PY
 ( cd replay && CARGO_TARGET_DIR=${VERIF_REPLAY_TARGET:-/var/tmp/vpverif-target-replay} cargo build --offline --quiet )
+( cd /repo && CARGO_TARGET_DIR=${VERIF_CLI_TARGET:-/var/tmp/vpverif-target-cli} cargo build --offline --quiet -p predict -p evaluate ) || echo "cli build failed (C20 reports it)"
 echo setup ok
